@@ -79,6 +79,8 @@ pub struct LockEv {
     pub mode: Mode,
     pub lock: usize,
     pub task: usize,
+    /// the task held the reload mutex (`Mutex<()>`) when the event happened
+    pub under_reload: bool,
 }
 
 #[derive(Default)]
@@ -117,9 +119,72 @@ pub struct Shared {
     pub capture_backtraces: bool,
     /// raw tokio id of the task running the server's main loop (set by the harness)
     pub main_task_raw: u64,
+    /// (normalised task, remaining acquisitions) of a task that is being held back
+    pub slow_task: Option<(usize, u32)>,
+    armed: Option<Armed>,
+}
+
+struct Armed {
+    what: usize,
+    hold: u32,
+    fired: bool,
+    waker: Option<std::task::Waker>,
+}
+
+/// Resolves when the armed trigger of the current run has fired.
+pub struct TriggerFired;
+
+impl std::future::Future for TriggerFired {
+    type Output = ();
+    fn poll(self: std::pin::Pin<&mut Self>, cx: &mut std::task::Context<'_>) -> std::task::Poll<()> {
+        let fired = with_current(|s| {
+            if s.trigger_fired() {
+                true
+            } else {
+                s.set_trigger_waker(cx.waker().clone());
+                false
+            }
+        })
+        .unwrap_or(true);
+        if fired { std::task::Poll::Ready(()) } else { std::task::Poll::Pending }
+    }
 }
 
 pub type SharedRef = Rc<RefCell<Shared>>;
+
+thread_local! {
+    /// The controller of the run executing on this thread, for code that cannot hold an `Rc`
+    /// (the simulated client is a spawned task and must be `Send`).
+    static CURRENT: RefCell<Option<SharedRef>> = const { RefCell::new(None) };
+}
+
+pub fn set_current(s: Option<SharedRef>) {
+    CURRENT.with(|c| *c.borrow_mut() = s);
+}
+
+/// Read access to the controller of the current run (None outside a run).
+pub fn with_current<R>(f: impl FnOnce(&mut Shared) -> R) -> Option<R> {
+    CURRENT.with(|c| c.borrow().as_ref().map(|s| f(&mut s.borrow_mut())))
+}
+
+/// Trace triggers: what the simulated client can wait for before its next step, so that the
+/// step lands right after a snapshot / inside a critical section of a background task instead of
+/// at a blind offset. (lock type substring, mode, operation)
+pub const TRIGGERS: &[(&str, Mode, LockOp, &str)] = &[
+    // 0..3: the same events by the task that holds the reload mutex (names start with "reload-")
+    ("WorkspaceManager", Mode::W, LockOp::Released, "reload-released-workspace-manager-write"),
+    ("EmmyLuaAnalysis", Mode::W, LockOp::Released, "reload-released-analysis-write"),
+    ("EmmyLuaAnalysis", Mode::W, LockOp::Acquired, "reload-acquired-analysis-write"),
+    ("WorkspaceManager", Mode::R, LockOp::Acquired, "reload-acquired-workspace-manager-read"),
+    ("WorkspaceManager", Mode::W, LockOp::Released, "bg-released-workspace-manager-write"),
+    ("EmmyLuaAnalysis", Mode::W, LockOp::Released, "bg-released-analysis-write"),
+    ("EmmyLuaAnalysis", Mode::W, LockOp::Acquired, "bg-acquired-analysis-write"),
+    ("WorkspaceManager", Mode::R, LockOp::Acquired, "bg-acquired-workspace-manager-read"),
+    ("CancellationToken", Mode::M, LockOp::Released, "bg-released-token-table"),
+    ("EmmyLuaAnalysis", Mode::R, LockOp::Wait, "bg-waits-analysis-read"),
+    ("EmmyLuaAnalysis", Mode::W, LockOp::Wait, "bg-waits-analysis-write"),
+    ("EmmyLuaAnalysis", Mode::R, LockOp::Released, "bg-released-analysis-read"),
+];
 
 pub fn short_type(ty: &str) -> String {
     // "tokio::sync::rwlock::RwLock<emmylua_code_analysis::EmmyLuaAnalysis>" comes in as the T only
@@ -170,6 +235,8 @@ impl Shared {
             probes: BTreeMap::new(),
             capture_backtraces: false,
             main_task_raw: 0,
+            slow_task: None,
+            armed: None,
         }
     }
 
@@ -206,6 +273,58 @@ impl Shared {
 
     pub fn lock_named(&self, name: &str) -> Option<usize> {
         self.lock_names.iter().position(|n| n == name)
+    }
+
+    /// Arm trigger `what`: when a background task (not the server's main loop) produces that
+    /// lock-trace event, the waiting client is woken at once and the task is held back at its
+    /// next `hold` acquisitions.
+    pub fn arm(&mut self, what: usize, hold: u32) {
+        self.armed = Some(Armed { what: what % TRIGGERS.len(), hold, fired: false, waker: None });
+    }
+
+    pub fn disarm(&mut self) {
+        self.armed = None;
+    }
+
+    pub fn trigger_fired(&self) -> bool {
+        self.armed.as_ref().map(|a| a.fired).unwrap_or(true)
+    }
+
+    pub fn set_trigger_waker(&mut self, w: std::task::Waker) {
+        if let Some(a) = self.armed.as_mut() {
+            a.waker = Some(w);
+        }
+    }
+
+    fn check_trigger(&mut self, e: &LockEv) -> Option<std::task::Waker> {
+        let main = self.main_task();
+        let a = self.armed.as_ref()?;
+        if a.fired {
+            return None;
+        }
+        let (ty, mode, op, name) = TRIGGERS[a.what];
+        let reload_only = name.starts_with("reload-");
+        let hit = Some(e.task) != main
+            && e.mode == mode
+            && (e.op as u8) == (op as u8)
+            && (!reload_only || e.under_reload)
+            && self.lock_names[e.lock].contains(ty);
+        if !hit {
+            return None;
+        }
+        let hold = a.hold;
+        if hold > 0 {
+            self.slow_task = Some((e.task, hold));
+        }
+        let a = self.armed.as_mut()?;
+        a.fired = true;
+        a.waker.take()
+    }
+
+    /// The next `acqs` lock acquisitions of task `task` stall for long (a worker thread that is
+    /// descheduled right after the event the client waited for).
+    pub fn hold_back(&mut self, task: usize, acqs: u32) {
+        self.slow_task = Some((task, acqs));
     }
 
     pub fn probe(&mut self, name: &'static str) {
@@ -402,9 +521,20 @@ impl Controller for SimController {
         let pm = s.spec.yield_permille;
         let maxy = s.spec.max_yields.max(1);
         let (spm, slen) = (s.spec.stall_permille, s.spec.stall_len.max(2));
+        let this = s.task(task_raw);
+        let held_back = match s.slow_task {
+            Some((t, n)) if t == this && n > 0 => {
+                s.slow_task = if n > 1 { Some((t, n - 1)) } else { None };
+                true
+            }
+            _ => false,
+        };
         let d = s.decide(
             |s| {
-                if spm > 0 && stall_here && s.rng.below(1000) < spm as u64 {
+                if held_back {
+                    s.probes.entry("held_back_after_trigger").and_modify(|c| *c += 1).or_insert(1);
+                    s.rng.range(24, 48) as u32
+                } else if spm > 0 && stall_here && s.rng.below(1000) < spm as u64 {
                     s.probes.entry("long_stall_injected").and_modify(|c| *c += 1).or_insert(1);
                     s.rng.range((slen / 2).max(1) as u64, slen as u64) as u32
                 } else if pm > 0 && s.rng.below(1000) < pm as u64 {
@@ -475,12 +605,14 @@ impl Controller for SimController {
             }
         }
         if s.events.len() < 200_000 {
-            s.events.push(LockEv {
-                op: ev.op,
-                mode,
-                lock,
-                task,
-            });
+            let under_reload = s.held.iter().any(|(t, l, m)| *t == task && *m == Mode::M && s.lock_names[*l] == "()");
+            let e = LockEv { op: ev.op, mode, lock, task, under_reload };
+            let waker = s.check_trigger(&e);
+            s.events.push(e);
+            if let Some(w) = waker {
+                drop(s);
+                w.wake();
+            }
         }
     }
 
